@@ -4,6 +4,7 @@ use std::sync::Arc;
 pub mod c03;
 pub mod c04;
 pub mod c10;
+pub mod c11;
 pub mod c12;
 pub mod c16;
 #[cfg(feature = "hashable")]
@@ -22,6 +23,7 @@ pub fn lookup(id: &str) -> Option<Entry> {
         "C03" => Entry { id: "C03", run: c03::run, replay: c03::replay },
         "C04" => Entry { id: "C04", run: c04::run, replay: c04::replay },
         "C10" => Entry { id: "C10", run: c10::run, replay: c10::replay },
+        "C11" => Entry { id: "C11", run: c11::run, replay: c11::replay },
         "C12" => Entry { id: "C12", run: c12::run, replay: c12::replay },
         "C16" => Entry { id: "C16", run: c16::run, replay: c16::replay },
         "C17" => Entry { id: "C17", run: c17::run, replay: c17::replay },
